@@ -459,7 +459,7 @@ class HdlcModel:
         from sa.hdlcworlds import frame_predicate_values, sv_to_expr
         frame0 = self.f0(self.roles.frame)
         for sp in self.paths:
-            if not sp.unknown or sp.lits.get("H") is not False or "S" in sp.lits:
+            if not sp.unknown or sp.lits.get("H") is not False:
                 continue
             exprs = []
             for _, pol, g in sp.unknown:
@@ -470,17 +470,31 @@ class HdlcModel:
                 exprs.append((e, pol))
             if not exprs:
                 continue
-            vals = frame_predicate_values(self.M, exprs)
-            if vals is None:
+            # the frame literals of the row table: too short (S), expected length (L), empty (E)
+            TARGETS = {"S": "frame.header.header_check_sequence is None", "L": "frame.is_expected_length", "E": "len(frame) == 0"}
+            fixed, open_, failed = {}, [], False
+            for lit, target in TARGETS.items():
+                if lit in sp.lits:
+                    continue
+                vals = frame_predicate_values(self.M, exprs, target)
+                if vals is None:
+                    failed = True
+                    break
+                if not vals:
+                    sp.lits["__infeasible__"] = True
+                    break
+                if len(vals) == 1:
+                    fixed[lit] = next(iter(vals))
+                else:
+                    open_.append(lit)
+            if failed or sp.lits.get("__infeasible__"):
                 continue
-            vals = set(vals)
-            if not vals:
-                sp.lits["__infeasible__"] = True
-            elif len(vals) == 1:
-                sp.lits["S"] = vals.pop()
-                sp.unknown = []
+            for lit, v in fixed.items():
+                sp.lits[lit] = v
+            if fixed:
+                sp.unknown = []  # the conditions are (or imply) literals of the table
             else:
-                self.__dict__.setdefault("free_paths", set()).add(id(sp))
+                self.__dict__.setdefault("free_paths", set()).add(id(sp))  # independent of every frame literal the table knows: free
 
     def matching(self, guard_alts):
         """paths consistent with any alternative (dict atom->bool) of the guard"""
